@@ -27,6 +27,7 @@ import (
 )
 
 type pendReq struct {
+	addr int
 	req  *raft.AppendEntriesRequest
 	resp *raft.AppendEntriesResponse
 	done chan error
@@ -40,9 +41,10 @@ type leadTrans struct {
 	closed chan struct{}
 }
 
-func (t *leadTrans) AppendEntries(id raft.ServerID, _ raft.ServerAddress, req *raft.AppendEntriesRequest, resp *raft.AppendEntriesResponse) error {
+func (t *leadTrans) AppendEntries(id raft.ServerID, target raft.ServerAddress, req *raft.AppendEntriesRequest, resp *raft.AppendEntriesResponse) error {
 	p, _ := strconv.Atoi(string(id))
-	rec := &pendReq{req: req, resp: resp, done: make(chan error, 1)}
+	ad, _ := strconv.Atoi(string(target))
+	rec := &pendReq{addr: ad, req: req, resp: resp, done: make(chan error, 1)}
 	t.mu.Lock()
 	if req.PrevLogEntry == 0 && len(req.Entries) == 0 {
 		t.pendHB[p] = rec
@@ -283,7 +285,7 @@ func (l *leadRun) pendingTok() string {
 	out := []string{"Q", strconv.Itoa(len(ids))}
 	for _, p := range ids {
 		q := l.t.pendAE[p].req
-		out = append(out, fmt.Sprintf("%d %d %d %d %d %d", p, q.Term, q.PrevLogEntry, q.PrevLogTerm, q.LeaderCommitIndex, len(q.Entries)))
+		out = append(out, fmt.Sprintf("%d %d %d %d %d %d %d", p, l.t.pendAE[p].addr, q.Term, q.PrevLogEntry, q.PrevLogTerm, q.LeaderCommitIndex, len(q.Entries)))
 		for _, e := range q.Entries {
 			out = append(out, fromLog(e).tok())
 		}
